@@ -1,8 +1,7 @@
 SPECIFICATION Spec
 CONSTANTS
   Paths = {"a", "d", "d/x"}
-  Rounds = 3
-  MaxEdits = 1
+  EditPlan <- Plan111
   Twin = FALSE
   Modes = {"inc", "incskip", "force", "forceskip"}
   Emit = FALSE
